@@ -1,0 +1,747 @@
+// Verification hooks. Compiled only with the cargo feature `verif`; with the
+// feature off not a single line of this file is part of the crate.
+//
+// The module offers drop-in replacements for the synchronisation primitives
+// and the clock the crate uses (`std::sync::atomic::*`, `std::sync::Mutex`,
+// `parking_lot::RwLock`, `std::time::Instant`). Every operation on them is
+// reported to a per-thread [`SyncHook`] before and after it is performed, so an
+// external scheduler can decide which thread performs its next operation.
+// Without a hook installed on the calling thread all types are pass-through.
+
+#![allow(missing_docs, missing_debug_implementations, clippy::all)]
+
+use std::cell::{Cell, RefCell};
+use std::sync::Arc;
+
+pub use std::sync::atomic::Ordering;
+
+/// Kind of a reported operation.
+#[derive(Clone, Copy, Debug, PartialEq, Eq, Hash)]
+pub enum OpKind {
+    Load,
+    Store,
+    Swap,
+    FetchAdd,
+    FetchSub,
+    FetchAnd,
+    FetchOr,
+    FetchXor,
+    FetchNand,
+    FetchMax,
+    FetchMin,
+    CmpXchg { weak: bool },
+    Fence,
+    MutexLock,
+    MutexTryLock,
+    MutexUnlock,
+    RwRead,
+    RwWrite,
+    RwTryRead,
+    RwTryWrite,
+    RwUnlockRead,
+    RwUnlockWrite,
+}
+
+/// One operation about to be performed (or just performed).
+#[derive(Clone, Copy, Debug)]
+pub struct Op {
+    /// Address of the cell / lock (0 for fences).
+    pub addr: usize,
+    pub kind: OpKind,
+    /// Ordering (success ordering for CAS; `SeqCst` for locks).
+    pub ord: Ordering,
+    /// Failure ordering (CAS only).
+    pub ord_fail: Ordering,
+    /// New value / delta.
+    pub operand: u64,
+    /// Expected value (CAS only).
+    pub expected: u64,
+    /// Relaxed read of the cell at `addr` (atomics only), for enabledness tests.
+    pub peek: fn(usize) -> u64,
+}
+
+#[derive(Clone, Copy, Debug, PartialEq, Eq)]
+pub enum Outcome {
+    /// Previous value (loads: the value read; stores: unspecified 0).
+    Prev(u64),
+    CasOk(u64),
+    CasFail(u64),
+    Unit,
+    TryFailed,
+}
+
+#[derive(Clone, Copy, Debug, PartialEq, Eq)]
+pub enum Directive {
+    Proceed,
+    /// Honoured by `compare_exchange_weak` only: fail without comparing.
+    SpuriousFail,
+    /// Honoured by `try_*` lock operations only: report failure.
+    FailTry,
+}
+
+pub trait SyncHook: Send + Sync {
+    /// Called before the operation; may block until the thread is scheduled.
+    fn before(&self, op: &Op) -> Directive;
+    /// Called after the operation with its result; must not block.
+    fn after(&self, op: &Op, out: &Outcome);
+}
+
+thread_local! {
+    static HOOK: RefCell<Option<Arc<dyn SyncHook>>> = const { RefCell::new(None) };
+    static CLOCK: Cell<Option<i128>> = const { Cell::new(None) };
+}
+
+/// Install (or remove) the hook of the calling thread.
+pub fn set_thread_hook(h: Option<Arc<dyn SyncHook>>) {
+    let _ = HOOK.try_with(|c| *c.borrow_mut() = h);
+}
+
+#[inline]
+fn hook() -> Option<Arc<dyn SyncHook>> {
+    HOOK.try_with(|c| c.try_borrow().ok().and_then(|h| h.clone()))
+        .ok()
+        .flatten()
+}
+
+fn no_peek(_: usize) -> u64 {
+    0
+}
+
+pub mod sync {
+    pub use std::sync::Arc;
+    pub use std::sync::{LockResult, PoisonError, TryLockError, TryLockResult};
+
+    use super::{hook, no_peek, Directive, Op, OpKind, Outcome};
+    use std::fmt;
+    use std::ops::{Deref, DerefMut};
+
+    pub mod atomic {
+        pub use std::sync::atomic::Ordering;
+
+        use super::super::{hook, Directive, Op, OpKind, Outcome};
+        use std::fmt;
+
+        pub fn fence(ord: Ordering) {
+            let h = hook();
+            let op = Op {
+                addr: 0,
+                kind: OpKind::Fence,
+                ord,
+                ord_fail: ord,
+                operand: 0,
+                expected: 0,
+                peek: super::no_peek,
+            };
+            if let Some(h) = &h {
+                h.before(&op);
+            }
+            std::sync::atomic::fence(ord);
+            if let Some(h) = &h {
+                h.after(&op, &Outcome::Unit);
+            }
+        }
+
+        macro_rules! hooked_atomic {
+            ($name:ident, $std:ident, $t:ty, $to:expr, $from:expr, int = $int:tt) => {
+                #[derive(Default)]
+                #[repr(transparent)]
+                pub struct $name {
+                    inner: std::sync::atomic::$std,
+                }
+
+                impl fmt::Debug for $name {
+                    fn fmt(&self, f: &mut fmt::Formatter<'_>) -> fmt::Result {
+                        fmt::Debug::fmt(&self.inner, f)
+                    }
+                }
+
+                impl From<$t> for $name {
+                    fn from(v: $t) -> Self {
+                        Self::new(v)
+                    }
+                }
+
+                impl $name {
+                    pub const fn new(v: $t) -> Self {
+                        Self {
+                            inner: std::sync::atomic::$std::new(v),
+                        }
+                    }
+
+                    fn peek(addr: usize) -> u64 {
+                        // SAFETY: `addr` was taken from a live `&Self` by a thread that is
+                        // still blocked inside an operation on it.
+                        let cell = unsafe { &*(addr as *const std::sync::atomic::$std) };
+                        ($to)(cell.load(Ordering::Relaxed))
+                    }
+
+                    #[inline]
+                    fn op(&self, kind: OpKind, ord: Ordering, ord_fail: Ordering, operand: $t, expected: $t) -> Op {
+                        Op {
+                            addr: &self.inner as *const _ as usize,
+                            kind,
+                            ord,
+                            ord_fail,
+                            operand: ($to)(operand),
+                            expected: ($to)(expected),
+                            peek: Self::peek,
+                        }
+                    }
+
+                    pub fn get_mut(&mut self) -> &mut $t {
+                        self.inner.get_mut()
+                    }
+
+                    pub fn into_inner(self) -> $t {
+                        self.inner.into_inner()
+                    }
+
+                    pub fn load(&self, ord: Ordering) -> $t {
+                        match hook() {
+                            None => self.inner.load(ord),
+                            Some(h) => {
+                                let op = self.op(OpKind::Load, ord, ord, ($from)(0u64), ($from)(0u64));
+                                h.before(&op);
+                                let v = self.inner.load(ord);
+                                h.after(&op, &Outcome::Prev(($to)(v)));
+                                v
+                            }
+                        }
+                    }
+
+                    pub fn store(&self, val: $t, ord: Ordering) {
+                        match hook() {
+                            None => self.inner.store(val, ord),
+                            Some(h) => {
+                                let op = self.op(OpKind::Store, ord, ord, val, ($from)(0u64));
+                                h.before(&op);
+                                self.inner.store(val, ord);
+                                h.after(&op, &Outcome::Prev(0));
+                            }
+                        }
+                    }
+
+                    pub fn swap(&self, val: $t, ord: Ordering) -> $t {
+                        match hook() {
+                            None => self.inner.swap(val, ord),
+                            Some(h) => {
+                                let op = self.op(OpKind::Swap, ord, ord, val, ($from)(0u64));
+                                h.before(&op);
+                                let v = self.inner.swap(val, ord);
+                                h.after(&op, &Outcome::Prev(($to)(v)));
+                                v
+                            }
+                        }
+                    }
+
+                    pub fn compare_exchange(
+                        &self,
+                        current: $t,
+                        new: $t,
+                        success: Ordering,
+                        failure: Ordering,
+                    ) -> Result<$t, $t> {
+                        match hook() {
+                            None => self.inner.compare_exchange(current, new, success, failure),
+                            Some(h) => {
+                                let op = self.op(OpKind::CmpXchg { weak: false }, success, failure, new, current);
+                                h.before(&op);
+                                let r = self.inner.compare_exchange(current, new, success, failure);
+                                match r {
+                                    Ok(v) => h.after(&op, &Outcome::CasOk(($to)(v))),
+                                    Err(v) => h.after(&op, &Outcome::CasFail(($to)(v))),
+                                }
+                                r
+                            }
+                        }
+                    }
+
+                    pub fn compare_exchange_weak(
+                        &self,
+                        current: $t,
+                        new: $t,
+                        success: Ordering,
+                        failure: Ordering,
+                    ) -> Result<$t, $t> {
+                        match hook() {
+                            None => self.inner.compare_exchange_weak(current, new, success, failure),
+                            Some(h) => {
+                                let op = self.op(OpKind::CmpXchg { weak: true }, success, failure, new, current);
+                                let r = match h.before(&op) {
+                                    Directive::SpuriousFail => Err(self.inner.load(failure)),
+                                    // The strong form is a legal implementation of the weak one.
+                                    _ => self.inner.compare_exchange(current, new, success, failure),
+                                };
+                                match r {
+                                    Ok(v) => h.after(&op, &Outcome::CasOk(($to)(v))),
+                                    Err(v) => h.after(&op, &Outcome::CasFail(($to)(v))),
+                                }
+                                r
+                            }
+                        }
+                    }
+
+                    pub fn fetch_update<F>(&self, set_order: Ordering, fetch_order: Ordering, mut f: F) -> Result<$t, $t>
+                    where
+                        F: FnMut($t) -> Option<$t>,
+                    {
+                        let mut prev = self.load(fetch_order);
+                        while let Some(next) = f(prev) {
+                            match self.compare_exchange_weak(prev, next, set_order, fetch_order) {
+                                x @ Ok(_) => return x,
+                                Err(next_prev) => prev = next_prev,
+                            }
+                        }
+                        Err(prev)
+                    }
+
+                    hooked_atomic!(@rmw $t, $to, $from, fetch_and, FetchAnd);
+                    hooked_atomic!(@rmw $t, $to, $from, fetch_or, FetchOr);
+                    hooked_atomic!(@rmw $t, $to, $from, fetch_xor, FetchXor);
+                    hooked_atomic!(@rmw $t, $to, $from, fetch_nand, FetchNand);
+                    hooked_atomic!(@int $int, $t, $to, $from);
+                }
+            };
+            (@rmw $t:ty, $to:expr, $from:expr, $method:ident, $kind:ident) => {
+                pub fn $method(&self, val: $t, ord: Ordering) -> $t {
+                    match hook() {
+                        None => self.inner.$method(val, ord),
+                        Some(h) => {
+                            let op = self.op(OpKind::$kind, ord, ord, val, ($from)(0u64));
+                            h.before(&op);
+                            let v = self.inner.$method(val, ord);
+                            h.after(&op, &Outcome::Prev(($to)(v)));
+                            v
+                        }
+                    }
+                }
+            };
+            (@int true, $t:ty, $to:expr, $from:expr) => {
+                hooked_atomic!(@rmw $t, $to, $from, fetch_add, FetchAdd);
+                hooked_atomic!(@rmw $t, $to, $from, fetch_sub, FetchSub);
+                hooked_atomic!(@rmw $t, $to, $from, fetch_max, FetchMax);
+                hooked_atomic!(@rmw $t, $to, $from, fetch_min, FetchMin);
+            };
+            (@int false, $t:ty, $to:expr, $from:expr) => {};
+        }
+
+        hooked_atomic!(AtomicU64, AtomicU64, u64, |v: u64| v, |v: u64| v, int = true);
+        hooked_atomic!(AtomicI64, AtomicI64, i64, |v: i64| v as u64, |v: u64| v as i64, int = true);
+        hooked_atomic!(AtomicUsize, AtomicUsize, usize, |v: usize| v as u64, |v: u64| v as usize, int = true);
+        hooked_atomic!(AtomicBool, AtomicBool, bool, |v: bool| v as u64, |v: u64| v != 0, int = false);
+    }
+
+    fn lock_op(addr: usize, kind: OpKind) -> Op {
+        Op {
+            addr,
+            kind,
+            ord: atomic::Ordering::SeqCst,
+            ord_fail: atomic::Ordering::SeqCst,
+            operand: 0,
+            expected: 0,
+            peek: no_peek,
+        }
+    }
+
+    // ---------------------------------------------------------------- Mutex
+
+    /// `std::sync::Mutex` with reported lock / unlock.
+    #[derive(Default)]
+    pub struct Mutex<T: ?Sized> {
+        inner: std::sync::Mutex<T>,
+    }
+
+    pub struct MutexGuard<'a, T: ?Sized + 'a> {
+        addr: usize,
+        inner: Option<std::sync::MutexGuard<'a, T>>,
+    }
+
+    impl<T> Mutex<T> {
+        pub const fn new(t: T) -> Self {
+            Mutex {
+                inner: std::sync::Mutex::new(t),
+            }
+        }
+
+        pub fn into_inner(self) -> LockResult<T> {
+            self.inner.into_inner()
+        }
+    }
+
+    impl<T: ?Sized> Mutex<T> {
+        fn addr(&self) -> usize {
+            &self.inner as *const _ as *const u8 as usize
+        }
+
+        pub fn lock(&self) -> LockResult<MutexGuard<'_, T>> {
+            let addr = self.addr();
+            let h = hook();
+            let op = lock_op(addr, OpKind::MutexLock);
+            if let Some(h) = &h {
+                h.before(&op);
+            }
+            let r = self.inner.lock();
+            if let Some(h) = &h {
+                h.after(&op, &Outcome::Unit);
+            }
+            match r {
+                Ok(g) => Ok(MutexGuard { addr, inner: Some(g) }),
+                Err(p) => Err(PoisonError::new(MutexGuard {
+                    addr,
+                    inner: Some(p.into_inner()),
+                })),
+            }
+        }
+
+        pub fn try_lock(&self) -> TryLockResult<MutexGuard<'_, T>> {
+            let addr = self.addr();
+            let h = hook();
+            let op = lock_op(addr, OpKind::MutexTryLock);
+            let mut forced_fail = false;
+            if let Some(h) = &h {
+                forced_fail = h.before(&op) == Directive::FailTry;
+            }
+            if forced_fail {
+                if let Some(h) = &h {
+                    h.after(&op, &Outcome::TryFailed);
+                }
+                return Err(TryLockError::WouldBlock);
+            }
+            let r = self.inner.try_lock();
+            if let Some(h) = &h {
+                let out = match &r {
+                    Err(TryLockError::WouldBlock) => Outcome::TryFailed,
+                    _ => Outcome::Unit,
+                };
+                h.after(&op, &out);
+            }
+            match r {
+                Ok(g) => Ok(MutexGuard { addr, inner: Some(g) }),
+                Err(TryLockError::Poisoned(p)) => Err(TryLockError::Poisoned(PoisonError::new(MutexGuard {
+                    addr,
+                    inner: Some(p.into_inner()),
+                }))),
+                Err(TryLockError::WouldBlock) => Err(TryLockError::WouldBlock),
+            }
+        }
+
+        pub fn is_poisoned(&self) -> bool {
+            self.inner.is_poisoned()
+        }
+
+        pub fn get_mut(&mut self) -> LockResult<&mut T> {
+            self.inner.get_mut()
+        }
+    }
+
+    impl<T: ?Sized + fmt::Debug> fmt::Debug for Mutex<T> {
+        fn fmt(&self, f: &mut fmt::Formatter<'_>) -> fmt::Result {
+            f.write_str("Mutex { .. }")
+        }
+    }
+
+    impl<T> From<T> for Mutex<T> {
+        fn from(t: T) -> Self {
+            Mutex::new(t)
+        }
+    }
+
+    impl<T: ?Sized> Deref for MutexGuard<'_, T> {
+        type Target = T;
+        fn deref(&self) -> &T {
+            self.inner.as_ref().unwrap()
+        }
+    }
+
+    impl<T: ?Sized> DerefMut for MutexGuard<'_, T> {
+        fn deref_mut(&mut self) -> &mut T {
+            self.inner.as_mut().unwrap()
+        }
+    }
+
+    impl<T: ?Sized> Drop for MutexGuard<'_, T> {
+        fn drop(&mut self) {
+            let h = hook();
+            let op = lock_op(self.addr, OpKind::MutexUnlock);
+            if let Some(h) = &h {
+                h.before(&op);
+            }
+            self.inner.take();
+            if let Some(h) = &h {
+                h.after(&op, &Outcome::Unit);
+            }
+        }
+    }
+
+    impl<T: ?Sized + fmt::Debug> fmt::Debug for MutexGuard<'_, T> {
+        fn fmt(&self, f: &mut fmt::Formatter<'_>) -> fmt::Result {
+            fmt::Debug::fmt(&**self, f)
+        }
+    }
+
+    // --------------------------------------------------------------- RwLock
+
+    /// `parking_lot::RwLock` with reported acquire / release.
+    #[derive(Default)]
+    pub struct RwLock<T: ?Sized> {
+        inner: parking_lot::RwLock<T>,
+    }
+
+    pub struct RwLockReadGuard<'a, T: ?Sized + 'a> {
+        addr: usize,
+        inner: Option<parking_lot::RwLockReadGuard<'a, T>>,
+    }
+
+    pub struct RwLockWriteGuard<'a, T: ?Sized + 'a> {
+        addr: usize,
+        inner: Option<parking_lot::RwLockWriteGuard<'a, T>>,
+    }
+
+    impl<T> RwLock<T> {
+        pub const fn new(t: T) -> Self {
+            RwLock {
+                inner: parking_lot::RwLock::new(t),
+            }
+        }
+
+        pub fn into_inner(self) -> T {
+            self.inner.into_inner()
+        }
+    }
+
+    impl<T: ?Sized> RwLock<T> {
+        fn addr(&self) -> usize {
+            &self.inner as *const _ as *const u8 as usize
+        }
+
+        pub fn read(&self) -> RwLockReadGuard<'_, T> {
+            let addr = self.addr();
+            let h = hook();
+            let op = lock_op(addr, OpKind::RwRead);
+            if let Some(h) = &h {
+                h.before(&op);
+            }
+            // `read_recursive` never queues behind a waiting writer; the scheduler
+            // already decided that this acquisition is admissible.
+            let g = self.inner.read_recursive();
+            if let Some(h) = &h {
+                h.after(&op, &Outcome::Unit);
+            }
+            RwLockReadGuard { addr, inner: Some(g) }
+        }
+
+        pub fn read_recursive(&self) -> RwLockReadGuard<'_, T> {
+            self.read()
+        }
+
+        pub fn write(&self) -> RwLockWriteGuard<'_, T> {
+            let addr = self.addr();
+            let h = hook();
+            let op = lock_op(addr, OpKind::RwWrite);
+            if let Some(h) = &h {
+                h.before(&op);
+            }
+            let g = self.inner.write();
+            if let Some(h) = &h {
+                h.after(&op, &Outcome::Unit);
+            }
+            RwLockWriteGuard { addr, inner: Some(g) }
+        }
+
+        pub fn try_read(&self) -> Option<RwLockReadGuard<'_, T>> {
+            let addr = self.addr();
+            let h = hook();
+            let op = lock_op(addr, OpKind::RwTryRead);
+            let mut forced_fail = false;
+            if let Some(h) = &h {
+                forced_fail = h.before(&op) == Directive::FailTry;
+            }
+            let g = if forced_fail { None } else { self.inner.try_read_recursive() };
+            if let Some(h) = &h {
+                h.after(&op, if g.is_some() { &Outcome::Unit } else { &Outcome::TryFailed });
+            }
+            g.map(|g| RwLockReadGuard { addr, inner: Some(g) })
+        }
+
+        pub fn try_write(&self) -> Option<RwLockWriteGuard<'_, T>> {
+            let addr = self.addr();
+            let h = hook();
+            let op = lock_op(addr, OpKind::RwTryWrite);
+            let mut forced_fail = false;
+            if let Some(h) = &h {
+                forced_fail = h.before(&op) == Directive::FailTry;
+            }
+            let g = if forced_fail { None } else { self.inner.try_write() };
+            if let Some(h) = &h {
+                h.after(&op, if g.is_some() { &Outcome::Unit } else { &Outcome::TryFailed });
+            }
+            g.map(|g| RwLockWriteGuard { addr, inner: Some(g) })
+        }
+
+        pub fn get_mut(&mut self) -> &mut T {
+            self.inner.get_mut()
+        }
+    }
+
+    impl<T: ?Sized + fmt::Debug> fmt::Debug for RwLock<T> {
+        fn fmt(&self, f: &mut fmt::Formatter<'_>) -> fmt::Result {
+            f.write_str("RwLock { .. }")
+        }
+    }
+
+    impl<T> From<T> for RwLock<T> {
+        fn from(t: T) -> Self {
+            RwLock::new(t)
+        }
+    }
+
+    impl<T: ?Sized> Deref for RwLockReadGuard<'_, T> {
+        type Target = T;
+        fn deref(&self) -> &T {
+            self.inner.as_ref().unwrap()
+        }
+    }
+
+    impl<T: ?Sized> Drop for RwLockReadGuard<'_, T> {
+        fn drop(&mut self) {
+            let h = hook();
+            let op = lock_op(self.addr, OpKind::RwUnlockRead);
+            if let Some(h) = &h {
+                h.before(&op);
+            }
+            self.inner.take();
+            if let Some(h) = &h {
+                h.after(&op, &Outcome::Unit);
+            }
+        }
+    }
+
+    impl<T: ?Sized> Deref for RwLockWriteGuard<'_, T> {
+        type Target = T;
+        fn deref(&self) -> &T {
+            self.inner.as_ref().unwrap()
+        }
+    }
+
+    impl<T: ?Sized> DerefMut for RwLockWriteGuard<'_, T> {
+        fn deref_mut(&mut self) -> &mut T {
+            self.inner.as_mut().unwrap()
+        }
+    }
+
+    impl<T: ?Sized> Drop for RwLockWriteGuard<'_, T> {
+        fn drop(&mut self) {
+            let h = hook();
+            let op = lock_op(self.addr, OpKind::RwUnlockWrite);
+            if let Some(h) = &h {
+                h.before(&op);
+            }
+            self.inner.take();
+            if let Some(h) = &h {
+                h.after(&op, &Outcome::Unit);
+            }
+        }
+    }
+}
+
+pub mod time {
+    pub use std::time::Duration;
+
+    use super::CLOCK;
+    use std::ops::{Add, Sub};
+
+    /// Set (or clear) the virtual clock of the calling thread, in nanoseconds.
+    /// While set, `Instant::now()` returns that virtual time; it may be moved
+    /// backwards.
+    pub fn set_thread_clock_nanos(t: Option<i128>) {
+        let _ = CLOCK.try_with(|c| c.set(t));
+    }
+
+    #[derive(Clone, Copy, Debug, PartialEq, Eq, PartialOrd, Ord, Hash)]
+    enum Repr {
+        Real(std::time::Instant),
+        Virt(i128),
+    }
+
+    /// `std::time::Instant` with a virtual-clock seam.
+    #[derive(Clone, Copy, Debug, PartialEq, Eq, PartialOrd, Ord, Hash)]
+    pub struct Instant(Repr);
+
+    fn dur(n: i128) -> Duration {
+        if n <= 0 {
+            Duration::ZERO
+        } else {
+            Duration::new((n / 1_000_000_000) as u64, (n % 1_000_000_000) as u32)
+        }
+    }
+
+    impl Instant {
+        pub fn now() -> Instant {
+            match CLOCK.try_with(|c| c.get()).ok().flatten() {
+                Some(t) => Instant(Repr::Virt(t)),
+                None => Instant(Repr::Real(std::time::Instant::now())),
+            }
+        }
+
+        pub fn checked_duration_since(&self, earlier: Instant) -> Option<Duration> {
+            match (self.0, earlier.0) {
+                (Repr::Real(a), Repr::Real(b)) => a.checked_duration_since(b),
+                (Repr::Virt(a), Repr::Virt(b)) => {
+                    if a >= b {
+                        Some(dur(a - b))
+                    } else {
+                        None
+                    }
+                }
+                _ => None,
+            }
+        }
+
+        pub fn saturating_duration_since(&self, earlier: Instant) -> Duration {
+            self.checked_duration_since(earlier).unwrap_or_default()
+        }
+
+        pub fn duration_since(&self, earlier: Instant) -> Duration {
+            self.saturating_duration_since(earlier)
+        }
+
+        pub fn elapsed(&self) -> Duration {
+            Instant::now().duration_since(*self)
+        }
+
+        pub fn checked_add(&self, d: Duration) -> Option<Instant> {
+            match self.0 {
+                Repr::Real(a) => a.checked_add(d).map(|x| Instant(Repr::Real(x))),
+                Repr::Virt(a) => Some(Instant(Repr::Virt(a + d.as_nanos() as i128))),
+            }
+        }
+
+        pub fn checked_sub(&self, d: Duration) -> Option<Instant> {
+            match self.0 {
+                Repr::Real(a) => a.checked_sub(d).map(|x| Instant(Repr::Real(x))),
+                Repr::Virt(a) => Some(Instant(Repr::Virt(a - d.as_nanos() as i128))),
+            }
+        }
+    }
+
+    impl Add<Duration> for Instant {
+        type Output = Instant;
+        fn add(self, d: Duration) -> Instant {
+            self.checked_add(d).expect("overflow when adding duration to instant")
+        }
+    }
+
+    impl Sub<Duration> for Instant {
+        type Output = Instant;
+        fn sub(self, d: Duration) -> Instant {
+            self.checked_sub(d).expect("overflow when subtracting duration from instant")
+        }
+    }
+
+    impl Sub<Instant> for Instant {
+        type Output = Duration;
+        fn sub(self, other: Instant) -> Duration {
+            self.duration_since(other)
+        }
+    }
+}
